@@ -234,7 +234,9 @@ def _parse_lambda(lam):
   # works in interactive shells, where getsource would fail. This is the
   # same procedure followed by inspect for non-modules:
   # https://github.com/python/cpython/blob/3.8/Lib/inspect.py#L772
-  lines = linecache.getlines(f, mod.__dict__)
+  # The module may be unknown (e.g. it was loaded without being registered in
+  # sys.modules); inspect falls back to the file alone in that case, too.
+  lines = linecache.getlines(f, mod.__dict__ if mod is not None else None)
   source = ''.join(lines)
 
   # Narrow down to the last node starting before our definition node.
